@@ -25,7 +25,7 @@ func codeConst(c *core.Ctx, name string) int64 {
 }
 
 // c13Oversize checks the oversize filter of one queue Read and the wiring of its limit.
-func c13Oversize(c *core.Ctx, pk string) {
+func c13Oversize(c *core.Ctx, rule, pk string) {
 	p := c.P
 	rd := p.Func(pk, "(*Queue).Read")
 	c.Analysed(fname(rd))
@@ -52,7 +52,7 @@ func c13Oversize(c *core.Ctx, pk string) {
 		}
 	})
 	if cmp == nil {
-		c.Violation("C13.R1", pk+"|Read|size-test", fpos(c, rd), "Read never compares a message's size with the client's Maximum Packet Size: oversize packets are sent")
+		c.Violation(rule, pk+"|Read|size-test", fpos(c, rd), "Read never compares a message's size with the client's Maximum Packet Size: oversize packets are sent")
 		return
 	}
 	op := cmp.Op
@@ -62,14 +62,14 @@ func c13Oversize(c *core.Ctx, pk string) {
 	// oversize means size > limit (a packet exactly at the limit is allowed)
 	switch op {
 	case token.GTR, token.LEQ:
-		c.OK("C13.R1", pk+"|Read|size-test-strict", ipos(c, cmp), "oversize = size > limit")
+		c.OK(rule, pk+"|Read|size-test-strict", ipos(c, cmp), "oversize = size > limit")
 	case token.GEQ, token.LSS:
-		c.Violation("C13.R1", pk+"|Read|size-test-strict", ipos(c, cmp), "a packet whose size equals the client's Maximum Packet Size is treated as oversize (comparison is not strict)")
+		c.Violation(rule, pk+"|Read|size-test-strict", ipos(c, cmp), "a packet whose size equals the client's Maximum Packet Size is treated as oversize (comparison is not strict)")
 	default:
-		c.Undecidedf("C13.R1", pk+"|Read|size-test-strict", ipos(c, cmp), "unexpected comparison operator %s", op)
+		c.Undecidedf(rule, pk+"|Read|size-test-strict", ipos(c, cmp), "unexpected comparison operator %s", op)
 	}
 	if hasOffset(cmp.X) || hasOffset(cmp.Y) {
-		c.Violation("C13.R1", pk+"|Read|size-test-offset", ipos(c, cmp), "the size comparison uses an additive constant")
+		c.Violation(rule, pk+"|Read|size-test-offset", ipos(c, cmp), "the size comparison uses an additive constant")
 	}
 	over := ssax.AVTrue
 	if op == token.LEQ || op == token.LSS {
@@ -88,16 +88,16 @@ func c13Oversize(c *core.Ctx, pk string) {
 			continue
 		}
 		n++
-		c.Check(!r.Reachable(a.Instr), "C13.R1", fmt.Sprintf("%s|Read|oversize-not-returned#%d", pk, i), ipos(c, a.Instr), "an oversize message never reaches the result", "Read hands out a message larger than the client's Maximum Packet Size")
+		c.Check(!r.Reachable(a.Instr), rule, fmt.Sprintf("%s|Read|oversize-not-returned#%d", pk, i), ipos(c, a.Instr), "an oversize message never reaches the result", "Read hands out a message larger than the client's Maximum Packet Size")
 	}
-	c.Check(n > 0, "C13.R1", pk+"|Read|result-append", fpos(c, rd), "result built by append", "Read never appends to its result")
+	c.Check(n > 0, rule, pk+"|Read|result-append", fpos(c, rd), "result built by append", "Read never appends to its result")
 	dropReach := false
 	for _, d := range invokeCalls(rd, "persistence/queue.Notifier", "NotifyDropped") {
 		if r.Reachable(d.Instr) {
 			dropReach = true
 		}
 	}
-	c.Check(dropReach, "C13.R1", pk+"|Read|oversize-reported", ipos(c, cmp), "oversize drop is reported", "an oversize message is discarded without NotifyDropped")
+	c.Check(dropReach, rule, pk+"|Read|oversize-reported", ipos(c, cmp), "oversize drop is reported", "an oversize message is discarded without NotifyDropped")
 	// the size is computed for the client's protocol version
 	// wiring: Init sets the limit and version on every successful path
 	init := p.Func(pk, "(*Queue).Init")
@@ -113,7 +113,7 @@ func c13Oversize(c *core.Ctx, pk string) {
 		}
 		key := fmt.Sprintf("%s|Init|%s", pk, f.field)
 		if len(good) == 0 {
-			c.Violation("C13.R1", key, fpos(c, init), fmt.Sprintf("Init never sets Queue.%s from InitOptions.%s", f.field, f.from))
+			c.Violation(rule, key, fpos(c, init), fmt.Sprintf("Init never sets Queue.%s from InitOptions.%s", f.field, f.from))
 			continue
 		}
 		ra := ssax.Analyze(init, ssax.ReachOpts{})
@@ -134,7 +134,7 @@ func c13Oversize(c *core.Ctx, pk string) {
 		if at != nil {
 			pos = ipos(c, at)
 		}
-		c.Check(!bad, "C13.R1", key, pos, "set on every successful Init", fmt.Sprintf("Init can succeed without setting Queue.%s (e.g. only on clean start): a resumed session keeps the previous connection's %s", f.field, f.from))
+		c.Check(!bad, rule, key, pos, "set on every successful Init", fmt.Sprintf("Init can succeed without setting Queue.%s (e.g. only on clean start): a resumed session keeps the previous connection's %s", f.field, f.from))
 	}
 }
 
@@ -143,8 +143,8 @@ func c13(c *core.Ctx) {
 	c.NotDecided("all validator-accepted configurations as numeric ranges; the FIFO's alias range bound by Topic Alias Maximum over histories")
 	p := c.P
 	fl := ssax.NewFlow()
-	c13Oversize(c, "persistence/queue/mem")
-	c13Oversize(c, "persistence/queue/redis")
+	c13Oversize(c, "C13.R1", "persistence/queue/mem")
+	c13Oversize(c, "C13.R1", "persistence/queue/redis")
 
 	// registerClient passes the client's limit
 	rc := p.Func("server", "(*server).registerClient")
